@@ -367,3 +367,13 @@ def r4_torn_tail(chk, mapb, put):
                    f"the truncation guard depends on {sorted(deps)} only",
                    f"the truncation guard depends on {sorted(stale)} (through {sorted(deps - stale)}), but map_blocks runs inside open() before `_closed = False`: "
                    "the guard is always false and the torn tail is never discarded")
+        # ... and what it reads must already describe *this* open: `self.mode` is set from open()'s argument before map_blocks runs.
+        # A backend keeps one UKVFile object and reopens it (`r` for a reading session, then `a`): a mode assigned after the
+        # scan leaves the previous session's "r" in place while the append session's scan decides about the torn tail.
+        if "mode" in deps and "mode" in opn.params():
+            sets_mode = {n.id for n in cfg.nodes if n.kind == "stmt" and isinstance(n.ast, ast.Assign) and any(norm(t_) == "self.mode" for t_ in n.ast.targets)}
+            late = cfg.path([cfg.entry], mb, avoid=sets_mode, edge_ok=lambda a, b, lab: lab != "exc") if mb else None
+            chk.decide(not late, "C03.R4", f"{UKV}:UKVFile.open:mode-set-before-the-scan", opn.where(),
+                       "open() stores the requested mode before map_blocks() consults it",
+                       "open() reaches map_blocks() without having stored the requested mode: the scan's truncation guard reads the mode of the *previous* open of this "
+                       "object (a backend reopens one UKVFile `r` then `a`), so the append session does not discard the torn tail")
